@@ -187,7 +187,12 @@ func (f *ruleFactory) createExecutePipeline(
 					"an authenticator is defined after some other non authenticator type")
 			}
 
-			authenticator, err := f.hf.CreateAuthenticator(version, id.(string), getConfig(pipelineStep["config"]))
+			ref, conf, err := mechanismRef(id, pipelineStep["config"])
+			if err != nil {
+				return nil, nil, nil, err
+			}
+
+			authenticator, err := f.hf.CreateAuthenticator(version, ref, conf)
 			if err != nil {
 				return nil, nil, nil, err
 			}
@@ -243,14 +248,17 @@ func (f *ruleFactory) createOnErrorPipeline(
 	for _, ehStep := range ehConfigs {
 		id, found := ehStep["error_handler"]
 		if found {
-			conf := getConfig(ehStep["config"])
+			ref, conf, err := mechanismRef(id, ehStep["config"])
+			if err != nil {
+				return nil, err
+			}
 
 			condition, err := getExecutionCondition(ehStep["if"])
 			if err != nil {
 				return nil, err
 			}
 
-			handler, err := f.hf.CreateErrorHandler(version, id.(string), conf)
+			handler, err := f.hf.CreateErrorHandler(version, ref, conf)
 			if err != nil {
 				return nil, err
 			}
@@ -338,12 +346,34 @@ func createHandler[T subjectHandler](
 		return nil, err
 	}
 
-	handler, err := creteHandler(version, id.(string), getConfig(configMap["config"]))
+	ref, conf, err := mechanismRef(id, configMap["config"])
+	if err != nil {
+		return nil, err
+	}
+
+	handler, err := creteHandler(version, ref, conf)
 	if err != nil {
 		return nil, err
 	}
 
 	return &conditionalSubjectHandler{h: handler, c: condition}, nil
+}
+
+// mechanismRef checks the types of a mechanism reference and its config override, which are taken
+// as is from the decoded rule set.
+func mechanismRef(id, conf any) (string, config.MechanismConfig, error) {
+	ref, ok := id.(string)
+	if !ok {
+		return "", nil, errorchain.NewWithMessagef(heimdall.ErrConfiguration,
+			"unexpected type %T for a mechanism reference", id)
+	}
+
+	if _, ok = conf.(map[string]any); conf != nil && !ok {
+		return "", nil, errorchain.NewWithMessagef(heimdall.ErrConfiguration,
+			"unexpected type %T for the config of '%s'", conf, ref)
+	}
+
+	return ref, getConfig(conf), nil
 }
 
 func getConfig(conf any) config.MechanismConfig {
